@@ -54,6 +54,32 @@ func replay() {
 		dir := tmpDir()
 		res := runAPI(dir, "replay", r.Opts, ops, true)
 		checkAPIResult(rep, r.Opts, res)
+	case "trace", "fault":
+		var r struct {
+			Opts  optSet   `json:"opts"`
+			Ops   []string `json:"ops"`
+			Fault []int    `json:"fault"`
+		}
+		_ = json.Unmarshal(rf.Replay, &r)
+		ops := make([]Op, len(r.Ops))
+		for i, l := range r.Ops {
+			ops[i] = ParseOp(l)
+		}
+		installHooks()
+		faultPlan = r.Fault
+		t := runTrace(rep, tmpDir(), "replay", r.Opts, ops)
+		faultPlan = nil
+		checkTrace(rep, t)
+		if os.Getenv("VERIF_DEBUG") != "" {
+			got, _ := runModel([]string{"store"}, t.lines)
+			for i := range t.lines {
+				g := ""
+				if i < len(got) {
+					g = got[i]
+				}
+				fmt.Printf("%4d %-28s impl=%s | model=%s\n", i, truncate(t.lines[i], 28), truncate(t.want[i], 150), truncate(g, 150))
+			}
+		}
 	case "flprog":
 		var r struct {
 			Kind  string   `json:"kind"`
